@@ -1239,6 +1239,10 @@ func ValueTupleExpr(query *Query, current Map, expr *sqlparser.ValTuple, opts ..
 		if err != nil {
 			return nil, err
 		}
+		// a fuse marker only has a meaning as a select-list item
+		if fuse, ok := value.(Fuse); ok {
+			value = map[string]any(fuse)
+		}
 		slice = append(slice, value)
 	}
 	return slice, nil
